@@ -1,13 +1,11 @@
 import Clover.Probe.C10
+import Clover.Probe.Keys
 /-! calibration: the byte-level tests IterateRange performs on raw keys are the value-level tests of
     the abstract scan (`Scan.lean`): seek position, "has prefix startKey", and the stop comparison -/
 namespace CV
 open OC
 
-def isPrefix : Bytes → Bytes → Bool
-  | [], _ => true
-  | _ :: _, [] => false
-  | a :: as, b :: bs => a == b && isPrefix as bs
+open Keys (isPrefix)
 
 theorem isPrefix_self_append (p r : Bytes) : isPrefix p (p ++ r) = true := by
   induction p with
